@@ -21,13 +21,17 @@ CONFIGS = {
     # ordered maps / pairs lists: elements are single-pair mappings, the list is a two-phase object
     'pairs7': dict(MaxEvents=7, MaxDocs=1, Anchors=['a'], MapKinds=['map'], SeqKinds=['seq', 'pairs', 'omap'], ScalarAnchors=False),
     'pairs9': dict(MaxEvents=9, MaxDocs=1, Anchors=['a', 'b'], MapKinds=['map'], SeqKinds=['seq', 'pairs', 'omap'], ScalarAnchors=False),
+    # objects of a class with __setstate__: the state mapping is built deep, after the instance is registered
+    'sobj7': dict(MaxEvents=7, MaxDocs=1, Anchors=['a'], MapKinds=['map', 'sobj'], SeqKinds=['seq'], ScalarAnchors=False),
+    'sobj8': dict(MaxEvents=8, MaxDocs=1, Anchors=['a', 'b'], MapKinds=['map', 'sobj', 'obj'], SeqKinds=['seq', 'app'], ScalarAnchors=False),
     'obj8': dict(MaxEvents=8, MaxDocs=2, Anchors=['a', 'b'], MapKinds=['map', 'obj'], SeqKinds=['seq'], ScalarAnchors=False),
 }
-TIERS = {'quick': ['core7', 'set7', 'obj7', 'app8', 'pairs7'], 'thorough': ['core8', 'set8', 'obj8', 'app9', 'pairs9']}
+TIERS = {'quick': ['core7', 'set7', 'obj7', 'sobj7', 'app8', 'pairs7'], 'thorough': ['core8', 'set8', 'obj8', 'sobj8', 'app9', 'pairs9']}
 SAFE = ['SafeLoader', 'CSafeLoader']
 FULL = ['FullLoader', 'CFullLoader']
 UNSAFE = ['UnsafeLoader', 'CUnsafeLoader', 'Loader', 'CLoader']
 OBJTAG = '!!python/object:harness.canary.Obj '
+SOBJTAG = '!!python/object:harness.canary.SObj '
 APPTAG = '!!python/object/apply:harness.canary.mkapp '
 
 
@@ -68,7 +72,7 @@ def print_stream(evs):
                     v = 'null'
                 items.append('? %s : %s' % (k, v))
             pos[0] += 1
-            tag = {'map': '', 'set': '!!set ', 'obj': OBJTAG}[e['t']]
+            tag = {'map': '', 'set': '!!set ', 'obj': OBJTAG, 'sobj': SOBJTAG}[e['t']]
             return anc + tag + '{' + ', '.join(items) + '}'
         raise ValueError(e)
     while pos[0] < len(evs):
@@ -126,7 +130,7 @@ class Exp:
         return go(r)
 
 
-def proj_obj(o, Obj, App=None):
+def proj_obj(o, Obj, App=None, SObj=None):
     ids = {}
 
     def go(x):
@@ -148,6 +152,8 @@ def proj_obj(o, Obj, App=None):
             return ('map', me, [(go(k), go(v)) for k, v in x.items()])
         if type(x) is Obj:
             return ('obj', me, [(go(k), go(v)) for k, v in x.__dict__.items()])
+        if SObj is not None and type(x) is SObj:
+            return ('sobj', me, [(go(k), go(v)) for k, v in x.__dict__.items()])
         if App is not None and type(x) is App:
             return ('app', me, [go(y) for y in x.args])
         return ('?', repr(type(x)))
@@ -173,7 +179,7 @@ def proj_node(n, nodes):
 def work(states, extra):
     yaml = use_repo()
     from yaml import nodes
-    from harness.canary import Obj, App
+    from harness.canary import Obj, App, SObj
     loaders = [getattr(yaml, n) for n in extra['loaders']]
     res = {'n': 0, 'tested': 0, 'bad': [], 'samples': [], 'nontrivial': 0, 'outcomes': {}}
     for st in states:
@@ -200,7 +206,7 @@ def work(states, extra):
             got, err = [], None
             try:
                 for d in yaml.load_all(text, Loader=L):
-                    got.append(proj_obj(d, Obj, App))
+                    got.append(proj_obj(d, Obj, App, SObj))
             except yaml.YAMLError as e:
                 err = type(e).__name__
             except RecursionError:
@@ -242,7 +248,7 @@ def main(tier, replay=None):
     samples, outcomes = [], {}
     for name in TIERS[tier]:
         cfg = CONFIGS[name]
-        if 'obj' in cfg['MapKinds'] or 'app' in cfg['SeqKinds']:
+        if 'obj' in cfg['MapKinds'] or 'sobj' in cfg['MapKinds'] or 'app' in cfg['SeqKinds']:
             loaders = UNSAFE[:2] if tier == 'quick' else UNSAFE
         else:
             loaders = SAFE if tier == 'quick' else SAFE + FULL + UNSAFE[:2]
